@@ -278,6 +278,13 @@ func TestVerifC05_sign448(t *testing.T) {
 		"equal ref/eddsa; the reference signature is accepted by every verification route; distinct = distinct (variant, seed, message, context)")
 	seeds := verifmc.Seeds(57, r.Seed())
 	extra := c05ExtraSeeds(r.Pick(24, 256), 57)
+	fl := int64(1)
+	if !r.Thorough() && r.Config() != "default" {
+		// quick tier, configurations other than default: a declared subset
+		fl = 4
+		seeds, extra = seeds[2:4], extra[:8]
+		r.NotExhaustive("quick tier, non-default configuration: 2 of the structured seeds, 8 extra seeds")
+	}
 	for _, v := range []*eddsa.Variant{eddsa.Ed448, eddsa.Ed448ph} {
 		signers, entries, ctxs := c05Signers448(v), c05Entries448(v), c05Ctxs()
 		errs := c05kit.SignAll(r, verifmc.ParallelFor, "sign448", v, signers, entries, nil, seeds, c05Msgs(), ctxs, true)
@@ -288,30 +295,38 @@ func TestVerifC05_sign448(t *testing.T) {
 	}
 	r.Set("seeds", len(seeds))
 	r.Set("extra_seeds", len(extra))
-	r.RequireCounter("signature-bytes-equal", 600)
-	r.RequireCounter("honest-accepted", 600)
+	r.RequireCounter("signature-bytes-equal", 600/fl)
+	r.RequireCounter("honest-accepted", 600/fl)
 }
 
 func TestVerifC05_verify448(t *testing.T) {
 	r := verifmc.Start(t, "C05", "verify448")
 	defer r.Finish()
 	r.Rule("per variant and base (seed, message, context): honest signature; S in {0,1,S+-1,L-1,L,L+1,S+jL (j<=16, while it fits),2^445,2^446-1,2^446,2^446+S,S|2^k (k=446..455),2^448-1,S+0xff*2^448,all-ones}; " +
-		"A and R: all 4 small-order points, y=p+j and y=2^448-1-j (j<32) x sign bit (128 strings), forged signatures over small-order and mixed-order keys and R with torsion, " +
+		"A = R = identity with S = jL (j in {0,1,2,3,4,5,8,15,255,1023}); A and R: all 4 small-order points, y=p+j and y=2^448-1-j (j<32) x sign bit (128 strings), forged signatures over small-order and mixed-order keys and R with torsion, " +
 		"non-canonical strings denoting small-order points (y=p, y=p+1, x=0 with sign bit) and ALL 127 non-zero values of the 7 unused bits of the last byte of A and of R, each carrying a signature valid for the denoted point; " +
 		"wrong lengths; altered message and context; contexts of 256/257/511/512 bytes signed with a wrapped length octet; " +
 		"every single-bit flip of A, R and S (base b0 of Ed448 in the quick tier, all bases and both variants in the thorough tier); each variant's honest signature offered to the other; " +
 		"each case judged must-accept / must-reject / either by ref/eddsa and given to every verification route; distinct = distinct (variant, key, message, signature, context)")
 	vs := []*eddsa.Variant{eddsa.Ed448, eddsa.Ed448ph}
+	// quick tier, configurations other than default: one base per variant, no bit flips (declared)
+	light := !r.Thorough() && r.Config() != "default"
+	if light {
+		r.NotExhaustive("quick tier, non-default configuration: base b0 only, no single-bit flips")
+	}
 	for _, v := range vs {
 		bases := c05Bases()
 		if !r.Thorough() {
 			bases = bases[:2]
 		}
+		if light {
+			bases = bases[:1]
+		}
 		for bi, b := range bases {
 			if r.Expired() {
 				return
 			}
-			flips := r.Thorough() || (bi == 0 && v == eddsa.Ed448)
+			flips := r.Thorough() || (bi == 0 && v == eddsa.Ed448 && !light)
 			if !flips {
 				r.NotExhaustive("quick tier: single-bit flips only on base b0 of plain Ed448")
 			}
@@ -333,16 +348,25 @@ func TestVerifC05_verify448(t *testing.T) {
 			}
 		}
 	}
-	r.RequireCounter("class:must-accept", 4)
-	r.RequireCounter("class:either", 20)
-	r.RequireCounter("reason:S>=L", 60)
-	r.RequireCounter("reason:A-not-canonical-point", 1000)
-	r.RequireCounter("reason:R-not-canonical-point", 1000)
-	r.RequireCounter("reason:cofactored-equation-fails", 300)
-	r.RequireCounter("reason:context-too-long", 8)
-	r.RequireCounter("lax:unused-bits", 4*254)
-	r.RequireCounter("lax:canonical-y", 8)
-	r.RequireCounter("lax:x0-sign", 8)
-	r.RequireCounter("group:flip-A", 456)
-	r.RequireCounter("group:flip-S", 456)
+	fl := func(n int64) int64 {
+		if light {
+			return n / 4
+		}
+		return n
+	}
+	r.RequireCounter("class:must-accept", fl(4))
+	r.RequireCounter("class:either", fl(20))
+	r.RequireCounter("reason:S>=L", fl(60))
+	r.RequireCounter("reason:A-not-canonical-point", fl(1000))
+	r.RequireCounter("reason:R-not-canonical-point", fl(1000))
+	r.RequireCounter("reason:cofactored-equation-fails", fl(300))
+	r.RequireCounter("reason:context-too-long", fl(8))
+	r.RequireCounter("lax:unused-bits", fl(4*254))
+	r.RequireCounter("lax:canonical-y", fl(8))
+	r.RequireCounter("lax:S-range", fl(20))
+	r.RequireCounter("lax:x0-sign", fl(8))
+	if !light {
+		r.RequireCounter("group:flip-A", 456)
+		r.RequireCounter("group:flip-S", 456)
+	}
 }
